@@ -829,6 +829,36 @@ class Sim:
                     if st == "exc" or v is not False:
                         self.fail("mapping:eq-true-for-different", what="one more (duplicated) row", got=v if st == "ok" else exc_name(v),
                                   rows=len(next(iter(self.model[b][c].values()))))
+        # ... a store in which one present cell is marked as missing while the data underneath stays the same (tables
+        # that differ in a mask state only) ...
+        if self.model:
+            b = next(iter(self.model))
+            done = False
+            for c, mc in self.model[b].items():
+                for cn, cells in mc.items():
+                    rows = [i for i, x in enumerate(cells) if x[1] == 0]
+                    if not rows or done:
+                        continue
+                    st, other = call(self.durable_copy, f)
+                    if st == "exc":
+                        continue
+                    masks = [x[1] for x in cells]
+                    masks[rows[0]] = 2
+                    data = [x[0] if x[1] == 0 else "" for x in cells]
+                    if self.flavour == "text":
+                        col = self.S.Column(data, masks)
+                    else:
+                        col = self.S.Column(np.array(data, dtype=str), np.array(masks, dtype=np.uint8))
+                    st, _ = call(lambda: other[b][c].__setitem__(cn, col))
+                    if st == "exc":
+                        continue
+                    done = True
+                    for side, fn in (("left", lambda: f == other), ("right", lambda: other == f)):
+                        st, v = call(fn)
+                        if st == "exc" or v is not False:
+                            self.fail("mapping:eq-true-for-different", what="one cell missing instead of present, same data underneath",
+                                      live_store_on=side, got=v if st == "ok" else exc_name(v))
+                    self.res.stats["probe:eq-negative-mask-only"] += 1
         # ... and a store with one block more or one block fewer, whichever side it stands on (also the empty store)
         for what in ("one more block", "one block fewer"):
             st, other = call(self.durable_copy, f)
